@@ -190,6 +190,13 @@ func inject(d *D, p *ptrs) *context.DataContext {
 	dc.Add("psl", &d.SL)
 	dc.Add("par", d.PAR)
 	dc.Add("key", "k")
+	dc.Add("nokey", "zz")
+	dc.Add("nik", int64(77))
+	dc.Add("ione", int64(1))
+	mis := map[int]string{1: "one"}
+	dc.Add("mis", mis)
+	dc.Add("pmis", &mis)
+	dc.Add("psm", &map[string]bool{"k": true})
 	dc.Add("ik", int64(3))
 	dc.Add("ix", int64(1))
 	return dc
@@ -434,6 +441,8 @@ func genC03(tier string, seed int64) (*Family, error) {
 		{"d.In.A", "int64", "d.In.A"}, {"d.P.A", "int64", "d.P.A"}, {"d.P.B", "string", "d.P.B"},
 		{"d.MS[\"k\"]", "int64", "d.MS[\"k\"]"}, {"d.MS[\"absent\"]", "int64", "int64(0)"}, {"d.MS[key]", "int64", "d.MS[\"k\"]"}, {"ms[\"o\"]", "int64", "d.MS[\"o\"]"}, {"pms[\"absent\"]", "int64", "int64(0)"},
 		{"d.MI[4]", "int64", "d.MI[4]"}, {"d.MI[ik]", "int64", "d.MI[3]"}, {"d.MI[77]", "int64", "int64(0)"}, {"d.M8[\"k\"]", "int8", "d.M8[\"k\"]"}, {"d.M8[\"zz\"]", "int8", "int8(0)"},
+		{"pms[nokey]", "int64", "int64(0)"}, {"ms[nokey]", "int64", "int64(0)"}, {"d.MS[nokey]", "int64", "int64(0)"}, {"d.MI[nik]", "int64", "int64(0)"},
+		{"pmis[nik]", "string", "\"\""}, {"pmis[1]", "string", "\"one\""}, {"pmis[ione]", "string", "\"one\""}, {"mis[nik]", "string", "\"\""}, {"psm[nokey]", "bool", "false"}, {"psm[key]", "bool", "true"},
 		{"d.SL[2]", "int64", "d.SL[2]"}, {"d.SL[ix]", "int64", "d.SL[1]"}, {"sl[0]", "int64", "d.SL[0]"}, {"psl[1]", "int64", "d.SL[1]"}, {"d.SL8[1]", "int8", "d.SL8[1]"},
 		{"d.AR[1]", "int64", "d.AR[1]"}, {"par[0]", "int64", "d.PAR[0]"}, {"d.PAR[2]", "int64", "d.PAR[2]"},
 	}
